@@ -60,7 +60,7 @@ class Gen(object):
 
     def block(self, depth=0):
         r = self.rng
-        k = r.randrange(16)
+        k = r.randrange(19)
         if k == 0:
             self.add(b'A=A+%d:PRINT "a";A' % r.randint(1, 9))
         elif k == 1:
@@ -101,6 +101,26 @@ class Gen(object):
         elif k == 11:
             rec = r.randint(1, 6)
             self.add(b'LSET F$=S$+"%s":RSET G$=STR$(A):PUT #2,%d:GET #2,%d:T$=F$+G$' % (bytes([r.randint(65, 90)]), rec, r.randint(1, rec)))
+        elif k == 15:
+            # implicit record numbers: the file pointer itself must survive a suspension
+            self.add(b'LSET F$="%s":RSET G$=STR$(B):PUT #2' % bytes([r.randint(65, 90)]))
+            self.add(b'GET #2,%d' % r.randint(1, 3))
+            self.add(b'GET #2:T$=F$+G$:PRINT LOC(2);LOF(2)')
+            self.add(b'LSET F$=T$:PUT #2:PRINT LOC(2)')
+        elif k == 16:
+            # text I/O on the record buffer, one item per statement
+            self.add(b'PRINT #2,A;B;C%')
+            self.add(b'PUT #2,%d' % r.randint(1, 4))
+            self.add(b'GET #2,LOC(2)')
+            self.add(b'INPUT #2,X')
+            self.add(b'INPUT #2,Y')
+            self.add(b'INPUT #2,K:PRINT X;Y;K')
+        elif k == 17:
+            # sequential input, one item per statement, from a file written earlier in the run
+            self.add(b'CLOSE 1:OPEN "OUT.TXT" FOR INPUT AS 1')
+            self.add(b'IF NOT EOF(1) THEN LINE INPUT #1,L$:PRINT L$')
+            self.add(b'IF NOT EOF(1) THEN L$=INPUT$(3,1):PRINT L$')
+            self.add(b'CLOSE 1:OPEN "OUT.TXT" FOR APPEND AS 1')
         elif k == 12:
             self.add(b'LOCATE %d,%d:COLOR %d,%d:PRINT "%s";' % (r.randint(1, 22), r.randint(1, 70), r.randint(0, 15), r.randint(0, 7),
                                                               bytes(r.randint(33, 126) for _ in range(r.randint(1, 12))).replace(b'"', b'q')))
@@ -115,7 +135,7 @@ class Gen(object):
         r = self.rng
         self.add(b'ON ERROR GOTO 9000')
         self.add(b'DIM Q(5),R$(3),P%(4):U$="0123456789":DEF FNA(X)=X*2+A:DEF FNS$(X$)=X$+S$+X$')
-        self.add(b'OPEN "OUT.TXT" FOR OUTPUT AS 1:OPEN "RND.DAT" AS 2 LEN=16:FIELD #2, 8 AS F$, 8 AS G$')
+        self.add(b'OPEN "OUT.TXT" FOR OUTPUT AS 1:OPEN "RND.DAT" AS 2 LEN=32:FIELD #2, 8 AS F$, 8 AS G$')
         if graphics:
             self.add(b'SCREEN %d' % graphics)
         for _ in range(r.randint(5, 12)):
@@ -163,7 +183,7 @@ def plan(tier, seed):
     q = tier == 'quick'
     shards = [{'kind': 'directed'}]
     for i in range(14 if q else 64):
-        shards.append({'kind': 'resume', 'programs': 2 if q else 12, 'part': i, 'maxk': 36 if q else 150})
+        shards.append({'kind': 'resume', 'programs': 3 if q else 12, 'part': i, 'maxk': 60 if q else 150})
     shards.append({'kind': 'tamper', 'files': 1 if q else 4, 'part': 0})
     return shards
 
